@@ -472,6 +472,35 @@ func (w *World) checkPNFTCommitted() error {
 			return vio(prop, "single-item view of <%q,%q>: code %d %s got %+v want %+v", t.Denom, t.ID, q.Code, q.Log, r.Pnft, w.expectPnft(t))
 		}
 	}
+	// distinct (denom, token) pairs never alias: every other way of cutting the bytes
+	// denom || 0x00 || id of a live token into a (denom', id') pair must not resolve, unless
+	// that pair is itself a live token
+	for k := range m.Tokens {
+		joined := k.Denom + "\x00" + k.ID
+		for i := 0; i < len(joined); i++ {
+			if joined[i] != 0 || i == len(k.Denom) {
+				continue
+			}
+			d2, id2 := joined[:i], joined[i+1:]
+			if d2 == "" || id2 == "" {
+				continue
+			}
+			if _, live := m.Tokens[TokenKey{d2, id2}]; live {
+				continue
+			}
+			w.Label("c12 alias probe")
+			if q := w.C.Query(pathPNFT, &pnfttypes.QueryPNFTRequest{DenomId: d2, Id: id2}, 0); q.Code == 0 {
+				return vio("C12", "pair <%q,%q> was never minted but resolves to the token <%q,%q> (pairs alias)", d2, id2, k.Denom, k.ID)
+			}
+			q := w.C.Query(pathPNFTs, &pnfttypes.QueryPNFTsRequest{DenomId: d2}, 0)
+			var r pnfttypes.QueryPNFTsResponse
+			if q.Code == 0 && r.Unmarshal(q.Value) == nil {
+				if err := w.samePnfts(r.Pnfts, m.TokensOf(d2)); err != nil {
+					return vio("C12", "tokens-of-denom %q (an alias cut of <%q,%q>): %v", d2, k.Denom, k.ID, err)
+				}
+			}
+		}
+	}
 	owners := map[string]bool{}
 	for _, a := range w.Accts {
 		owners[string(a.Addr.Bytes())] = true
